@@ -38,7 +38,7 @@ def CmpArgs.shrinks (a : CmpArgs) : List CmpArgs :=
   (if a.ignore then [{ a with ignore := false }] else []) ++
   (if a.reverse then [{ a with reverse := false }] else []) ++
   (if a.by_.isSome then [{ a with by_ := none }] else []) ++
-  (if a.key.isSome then [{ a with key := none }] else []) ++
+  (if a.key.isSome then [{ a with key := none, keyBad := false }] else []) ++
   ((shrinkOptBound a.bound).map fun b => { a with bound := b })
 
 def DebugArgs.shrinks (a : DebugArgs) : List DebugArgs :=
